@@ -728,10 +728,10 @@ theorem byNetpols_spec (e : Engine) (hv : e.Valid) (src dst : KPeer) (a b : Int)
     | some ns =>
       have hrep : p.isRepresentative = false := by rw [hself] at hsc; exact hsc
       have hpol : e.policiesSelecting (.pod p (some ns)) (dirOf i) =
-          e.netpols.filter (fun np => np.selects p (dirOf i)) := rfl
+          sortByName (e.netpols.filter (fun np => np.selects p (dirOf i))) := rfl
       have hgov := governs_iff e p (dirOf i) hrep
       have hall := npAllows_iff e p (dirOf i) (otherEnd src dst a b i) (dst.toEnd b) pr n hrep
-      rw [hpol]
+      rw [hpol, sortByName_isEmpty]
       show (∀ out, _ = _ → out = (Spec.npAllows e.toView p _ _ (dirOf i) pr n,
           Spec.governs e.toView p (dirOf i))) ∧ _
       cases hemp : (e.netpols.filter (fun np => np.selects p (dirOf i))).isEmpty
@@ -744,13 +744,13 @@ theorem byNetpols_spec (e : Engine) (hv : e.Valid) (src dst : KPeer) (a b : Int)
           cases hemp
         simp only [Bool.false_eq_true, if_false]
         obtain ⟨g1, g2⟩ := byNetpols_go_spec src dst a b hs hd i hq hn
-          (e.netpols.filter (fun np => np.selects p (dirOf i)))
-          (fun np hnp => valid_npRules hv (List.mem_filter.mp hnp).1 (dirOf i))
+          (sortByName (e.netpols.filter (fun np => np.selects p (dirOf i))))
+          (fun np hnp => valid_npRules hv (List.mem_filter.mp (mem_sortByName.mp hnp)).1 (dirOf i))
         refine ⟨fun out h => ?_, fun err h => ?_⟩
         · rw [g1 out h, hg]
           congr 1
           rw [Bool.eq_iff_iff, hall, List.any_eq_true]
-          simp only [List.any_eq_true]
+          simp only [List.any_eq_true, mem_sortByName]
         · obtain ⟨e1, e2⟩ := g2 err h
           refine ⟨e1, ?_, e2, ?_⟩
           · cases i
@@ -1054,10 +1054,7 @@ theorem byNetpols_total (e : Engine) (hv : e.Valid) (src dst : KPeer) (a b : Int
     | ok res =>
       refine byNetpols_go_total src dst a b hs hd hdok i hq hn _ ?_ (npFold_ok_steps src dst i _ _ _ hf)
       intro np hnp
-      have hmem : np ∈ e.netpols := by
-        cases hself : selfPeer src dst i with
-        | ip r => rw [hself] at hnp; exact absurd hnp List.not_mem_nil
-        | pod p ns => rw [hself] at hnp; exact (List.mem_filter.mp hnp).1
+      have hmem : np ∈ e.netpols := policiesSelecting_sub hnp
       exact valid_npRules hv hmem (dirOf i)
   · exact ⟨_, rfl⟩
 
